@@ -11,8 +11,12 @@
 // Scenario families
 //
 //	pair   one isolated pair at a time (exact attribution of its frames to links
-//	       and receive queues through the recv.frame / recv.push hooks); first
+//	       and receive queues through the recv.frame / recv.push hooks); scripted
+//	       payload sizes (small directly followed by > 4 KiB / 64 KiB, ...), first
 //	       message stalls its decode worker, one link is parked by a gate
+//	pair-ops   Send / Call / SendImportant / SendExit mixed in one stream with one
+//	       addressing mode (pid, name or alias)
+//	pair-xaddr the addressing mode changes from message to message
 //	mass   all senders stream at the same time, seeded delays at the receive hooks,
 //	       one link slowed down, random decode stalls and payload sizes
 //	grow   the stream starts while the dialling node is still adding links
@@ -22,6 +26,7 @@ package main
 
 import (
 	"fmt"
+	"math/rand"
 	"net"
 	"os"
 	"sort"
@@ -78,6 +83,9 @@ type classRes struct {
 	pairs     int
 	msgs      int64
 	overlapP  int // pairs with >= 1 in-flight overlap
+	overlap1P int // pairs in which the send of m(i+1) began before m(i) was delivered
+	exitEarly int
+	exitWit   string
 	invPairs  int
 	invN      int
 	dupN      int
@@ -112,23 +120,31 @@ var (
 )
 
 // sigOf classifies the inversions of one pair.
-//   - receiver id % 255 == 0: the frame carries order byte 0, the receiving side spreads
-//     the pair over all receive queues (any pool size)
-//   - sender id % 255 == 0 and more than one link: the sending side spreads the pair over all links
 //   - every inversion involves a message sent while the pool was changing: order % len(pool)
-//     picked another link
-//   - an inversion between two messages both sent while the pool was stable: the FIFO
-//     mechanism itself is broken
+//     picked another link (known finding)
+//   - stable pool: by the shape of the inversions (different addressing modes, different
+//     operations, large frame after small frame), then by the id residues (order byte 0, fixed
+//     in aee47fc), else the FIFO mechanism itself is broken
 func sigOf(s0, r0 bool, k int, p *pair, w window) string {
+	stable := p.minAfterEp < w.from || p.maxGotEp >= w.to
 	switch {
-	case r0:
+	case !stable:
+		return "pool-resize-remap"
+	case p.invAddr == p.invN:
+		// every inversion is between two messages addressed differently (pid / name / alias)
+		return "cross-addressing-reorder"
+	case p.invOps > 0 && p.invAddr == 0:
+		// same addressing, but a Call / SendImportant and a Send changed places
+		return "mixed-ops-reorder"
+	case p.invLarge == p.invN:
+		// same operation, same addressing: a frame > 4 KiB overtook a smaller one sent before it
+		return "large-frame-overtakes-small"
+	case r0 && p.invAddr0 == aPID:
 		return "order-byte-zero-receiver"
-	case s0 && k > 1:
+	case s0 && (k > 1 || p.invAddr0 == aName):
 		return "order-byte-zero"
-	case p.minAfterEp < w.from || p.maxGotEp >= w.to:
-		return "fifo-reorder"
 	}
-	return "pool-resize-remap"
+	return "fifo-reorder"
 }
 
 func analyse(e *env, rn *run, recvs []*receiver, k int, w window) map[string]*classRes {
@@ -154,6 +170,14 @@ func analyse(e *env, rn *run, recvs []*receiver, k int, w window) map[string]*cl
 				c.overlapP++
 			}
 			c.dupN += p.dupN
+			if p.overlap1 > 0 {
+				c.overlap1P++
+			}
+			if p.exitEarly > 0 {
+				c.exitEarly += p.exitEarly
+				c.exitWit = p.exitWit
+				c.sigs["exit-overtakes-messages"]++
+			}
 			if p.invN > 0 {
 				c.invPairs++
 				c.invN += p.invN
@@ -169,7 +193,8 @@ func analyse(e *env, rn *run, recvs []*receiver, k int, w window) map[string]*cl
 
 func (c *classRes) sig() string {
 	// the most specific surprise first: a reorder that none of the known causes explains
-	for _, s := range []string{"fifo-reorder", "pool-resize-remap", "order-byte-zero", "order-byte-zero-receiver"} {
+	for _, s := range []string{"fifo-reorder", "mixed-ops-reorder", "large-frame-overtakes-small", "exit-overtakes-messages", "cross-addressing-reorder",
+		"order-byte-zero", "order-byte-zero-receiver", "pool-resize-remap"} {
 		if c.sigs[s] > 0 {
 			return s
 		}
@@ -185,28 +210,112 @@ func (e *env) describe(w inversion) string {
 			rp = fmt.Sprintf("%s (id%%255=%d)", r.pid, r.res)
 		}
 	}
-	return fmt.Sprintf("sender %s (id%%255=%d) -> receiver %s: message #%d (sent at lclock %d, pool epoch %d) was delivered after #%d (sent at lclock %d, pool epoch %d)",
-		s.pid, s.res, rp, w.Got, w.SendTick, w.GotEpoch, w.After, w.AfterSend, w.AfterEpoch)
+	return fmt.Sprintf("sender %s (id%%255=%d) -> receiver %s: #%d (%s, %d pad bytes, sent at lclock %d, pool epoch %d) was delivered after #%d (%s, %d pad bytes, sent at lclock %d, pool epoch %d)",
+		s.pid, s.res, rp, w.Got, w.GotOp, w.GotPad, w.SendTick, w.GotEpoch, w.After, w.AfterOp, w.AfterPad, w.AfterSend, w.AfterEpoch)
 }
 
 // ---------------------------------------------------------------------------
 // scenario: one isolated pair
 
+// payload sizes of the scripts: small, medium, just above the 4 KiB staging buffer of a link writer, 64 KiB
+var padS, padM, padL, padH uint32 = 0, 1500, 6000, 65536
+
+// sizeMotifs returns n payload sizes built from short patterns: small directly followed by
+// large, large by small, small-small-large, ...
+func sizeMotifs(rng *rand.Rand, n int, hugeProb float64) []uint32 {
+	motifs := [][]uint32{{padS, padL}, {padL, padS}, {padS, padS, padL}, {padS, padM}, {padM, padL}, {padL, padL}, {padS, padS}, {padS, padL, padS, padL},
+		{padS, padS, padS, padS}, {padM, padS, padL}, {padS}, {padS, padL}}
+	var out []uint32
+	for len(out) < n {
+		m := motifs[rng.Intn(len(motifs))]
+		for _, p := range m {
+			if p == padL && rng.Float64() < hugeProb {
+				p = padH
+			} else if p == padL {
+				p = 4200 + uint32(rng.Intn(4000))
+			} else if p == padM {
+				p = 200 + uint32(rng.Intn(3500))
+			} else if rng.Intn(3) == 0 {
+				p = uint32(rng.Intn(64))
+			}
+			out = append(out, p)
+		}
+	}
+	return out[:n]
+}
+
+// sizesScript: n Sends with one addressing mode, sizes from the motifs, the first message stalls its decode worker
+func sizesScript(rng *rand.Rand, n int, addr uint8, stallUS uint32) []step {
+	pads := sizeMotifs(rng, n, 0.12)
+	sc := make([]step, n)
+	for i := range sc {
+		sc[i] = step{Kind: kSend, Addr: addr, Pad: pads[i]}
+	}
+	sc[0].SleepUS = stallUS
+	return sc
+}
+
+// opsScript: Send / Call / SendImportant mixed, one addressing mode; starts with a stalled Send
+// directly followed by a Call; optionally ends with SendExit (pid addressing only)
+func opsScript(rng *rand.Rand, n int, addr uint8, stallUS uint32, exitLast bool) []step {
+	pads := sizeMotifs(rng, n, 0.05)
+	sc := make([]step, n)
+	for i := range sc {
+		k := uint8(kSend)
+		switch x := rng.Intn(100); {
+		case x < 30:
+			k = kCall
+		case x < 42:
+			k = kImportant
+		}
+		sc[i] = step{Kind: k, Addr: addr, Pad: pads[i]}
+	}
+	sc[0] = step{Kind: kSend, Addr: addr, SleepUS: stallUS}
+	sc[1].Kind = kCall
+	if exitLast && addr == aPID {
+		sc[n-1] = step{Kind: kExit, Addr: aPID}
+		sc[n-2].Kind = kSend
+	}
+	return sc
+}
+
+// xaddrScript: Sends (and a few Calls) whose addressing mode changes from message to message
+func xaddrScript(rng *rand.Rand, n int, stallUS uint32) []step {
+	sc := make([]step, n)
+	for i := range sc {
+		k := uint8(kSend)
+		if rng.Intn(5) == 0 {
+			k = kCall
+		}
+		sc[i] = step{Kind: k, Addr: uint8(rng.Intn(3))}
+	}
+	sc[0].Kind, sc[0].SleepUS = kSend, stallUS
+	if sc[1].Addr == sc[0].Addr {
+		sc[1].Addr = (sc[0].Addr + 1) % 3
+	}
+	return sc
+}
+
 type pairOpt struct {
-	n       int
-	stallUS uint32
-	gate    bool
-	byName  bool // address the receiver by its registered name: link and receive queue both follow the sender id
+	scen   string // scenario family
+	script func(rng *rand.Rand) []step
+	gate   bool
 }
 
 func runPair(e *env, id string, s *sender, r *receiver, dst byte, o pairOpt) {
 	if !want(id) {
 		return
 	}
+	if e.broken {
+		e.skipped++
+		return
+	}
 	rng := hk.Rng("c13", id)
 	rn := beginRun()
 	c0 := snapCounters()
 	ls := liveLinks(dst)
+	script := o.script(rng)
+	n := len(script)
 	var g *hk.Gate
 	if o.gate && len(ls) > 0 {
 		gl := ls[rng.Intn(len(ls))]
@@ -214,7 +323,7 @@ func runPair(e *env, id string, s *sender, r *receiver, dst byte, o pairOpt) {
 	}
 	var wg sync.WaitGroup
 	wg.Add(1)
-	cmd := &streamCmd{Run: rn, Targets: []target{{r.pid, r.idx, r.name}}, N: o.n, SleepFirstUS: o.stallUS, ByName: o.byName, PadProb: 0.25, PadMax: 4000, Seed: rng.Int63(), Done: &wg}
+	cmd := &streamCmd{Run: rn, Targets: []target{{r.pid, r.idx, r.name, r.alias}}, Script: script, Seed: rng.Int63(), Done: &wg}
 	incon := ""
 	if err := e.node(s.side).Send(s.pid, cmd); err != nil {
 		incon = "harness: command to sender failed: " + err.Error()
@@ -222,60 +331,69 @@ func runPair(e *env, id string, s *sender, r *receiver, dst byte, o pairOpt) {
 	}
 	doneCh := make(chan struct{})
 	go func() { wg.Wait(); close(doneCh) }()
-	select {
-	case <-doneCh:
-	case <-time.After(10 * time.Second):
-		incon = "watchdog: sender callback did not finish"
-	}
 	if g != nil {
-		// keep the parked link parked until the frames that took other links have been delivered
-		share := int64(o.n)
-		if s.res == 0 && len(ls) > 1 {
-			share = int64((o.n + len(ls) - 1) / len(ls))
-		}
-		hk.WaitUntil(3*time.Millisecond, func() bool {
-			got := rn.recvd.Load()
-			return got >= int64(o.n) || (g.ArrivedCount() > 0 && got >= int64(o.n)-share)
+		// keep the parked link parked for a moment (a blocking Call behind it waits too), then let it go
+		hk.WaitUntil(2*time.Millisecond, func() bool {
+			return rn.recvd.Load() >= int64(n) || g.ArrivedCount() > 0
 		})
+		if g.ArrivedCount() > 0 {
+			hk.WaitUntil(time.Millisecond, func() bool { return rn.recvd.Load() >= int64(n) })
+		}
 		g.Release()
 	}
-	complete, _, missing := settle(rn, 10*time.Second)
+	select {
+	case <-doneCh:
+	case <-time.After(30 * time.Second):
+		incon = "watchdog: sender callback did not finish"
+	}
+	complete, _, missing := settle(rn, 3*time.Second)
 	if !complete && incon == "" {
 		incon = fmt.Sprintf("watchdog: %d of %d messages not delivered", missing, rn.sent.Load())
 	}
 	lu, qu, frames, perLink, perQueue := spread(c0, dst)
-	exact := frames == rn.sent.Load()
 	res := analyse(e, rn, []*receiver{r}, len(ls), stablePool)
+	defer e.noteDelivery(complete)
 	s0, r0 := s.res == 0, r.res == 0
 	c := res[className(s0, r0)]
-	scen := "pair"
-	if o.byName {
-		scen = "pair-by-name"
-		r0 = false // the receiver id plays no role: the frame carries the sender's order byte
-		if c != nil && c.invN > 0 {
-			// sender id % 255 == 0: order byte 0 on the wire, links and receive queues both round-robin (any pool size)
-			sg := "fifo-reorder"
-			if s0 {
-				sg = "order-byte-zero"
+	cs := hk.Case{ID: id, Scenario: o.scen, Events: rn.recvd.Load() + frames}
+	stalled := script[0].SleepUS > 0
+	inflight := c != nil && (c.overlapP > 0 || c.overlap1P > 0)
+	kinds, addrs, large := map[uint8]bool{}, map[uint8]bool{}, 0
+	smallThenLarge := 0
+	for i, st := range script {
+		kinds[st.Kind] = true
+		addrs[st.Addr] = true
+		if st.Pad > 4096 {
+			large++
+			if i > 0 && script[i-1].Pad < 4000 {
+				smallThenLarge++
 			}
-			c.sigs = map[string]int{sg: 1}
 		}
 	}
-	cs := hk.Case{ID: id, Scenario: scen, Events: rn.recvd.Load() + frames}
-	stalled := o.stallUS > 0
-	inflight := c != nil && c.overlapP > 0
+	// exact attribution needs one frame per message: only Send-only scripts qualify (a Call adds reply frames on the way back only,
+	// but an important Send adds an acknowledgement in the other direction; both leave the forward count intact)
+	exact := frames == rn.sent.Load()
 	spreadSeen := exact && (lu >= 2 || qu >= 2)
 	cs.Nontrivial = spreadSeen || (inflight && stalled)
-	cs.Key = fmt.Sprintf("%s/k=%d/%s/links=%d/queues=%d/inflight=%v", scen, len(ls), className(s0, r0), min(lu, 2), min(qu, 2), inflight)
+	cs.Key = fmt.Sprintf("%s/k=%d/%s/links=%d/queues=%d/inflight=%v/ops=%d/addr=%d/small-then-large=%v", o.scen, len(ls), className(s0, r0), min(lu, 2), min(qu, 2), inflight,
+		len(kinds), len(addrs), smallThenLarge > 0)
+	var ops []string
+	for _, st := range script {
+		ops = append(ops, fmt.Sprintf("%s:%d", opName(uint32(st.Kind)|uint32(st.Addr)<<4), st.Pad))
+	}
 	det := map[string]any{"pool": len(ls), "sender": s.pid.String(), "sender_res": s.res, "receiver": r.pid.String(), "receiver_res": r.res,
 		"sent": rn.sent.Load(), "delivered": rn.recvd.Load(), "frames_per_link": perLink, "pushes_per_queue": perQueue, "attribution_exact": exact,
-		"gate_parked_a_link": g != nil && g.ArrivedCount() > 0}
+		"gate_parked_a_link": g != nil && g.ArrivedCount() > 0, "script": strings.Join(ops, " ")}
 	switch {
-	case c != nil && c.invN > 0:
+	case c != nil && (c.invN > 0 || c.exitEarly > 0):
 		cs.Verdict = hk.Violated
 		cs.Sig = c.sig()
-		cs.What = fmt.Sprintf("pool of %d links, %d receive queues: %s; %d inversions in a burst of %d; frames per link %v, pushes per queue %v",
-			len(ls), 4*len(ls), e.describe(c.witness[0]), c.invN, o.n, perLink, perQueue)
+		if c.invN > 0 {
+			cs.What = fmt.Sprintf("pool of %d links, %d receive queues: %s; %d inversions in a stream of %d operations; frames per link %v, pushes per queue %v",
+				len(ls), 4*len(ls), e.describe(c.witness[0]), c.invN, n, perLink, perQueue)
+		} else {
+			cs.What = fmt.Sprintf("pool of %d links: sender %s -> receiver %s: %s", len(ls), s.pid, r.pid, c.exitWit)
+		}
 		det["inversions"] = c.witness
 		cs.Nontrivial = true
 	case incon != "":
@@ -286,6 +404,11 @@ func runPair(e *env, id string, s *sender, r *receiver, dst byte, o pairOpt) {
 	}
 	if n := rn.sendErr.Load(); n > 0 {
 		det["send_errors"] = rn.errs
+		if cs.Verdict == hk.Held {
+			// an operation that failed (e.g. a Call that timed out) says nothing about order, but the stream is not the scripted one
+			cs.Verdict = hk.Inconclusive
+			cs.What = fmt.Sprintf("%d operations of the script failed: %v", n, rn.errs)
+		}
 	}
 	cs.Detail = det
 	hk.Emit(cs)
@@ -310,6 +433,7 @@ type massOpt struct {
 	gapEvery int
 	gapUS    int
 	lossy    bool
+	scripted bool // per-sender scripts: mixed operations, one addressing mode per sender, size motifs
 	// ordinaryOnly leaves out senders and receivers whose id residue is 0: in a run with a
 	// changing pool an inversion of such a pair could not be attributed to one cause
 	ordinaryOnly bool
@@ -340,12 +464,12 @@ func (e *env) massTargets(i int, from byte, ordinaryOnly bool) []target {
 			continue
 		}
 		seen[r.idx] = true
-		ts = append(ts, target{r.pid, r.idx, r.name})
+		ts = append(ts, target{r.pid, r.idx, r.name, r.alias})
 	}
 	// every sender also talks to the first receiver whose id residue is 0
 	for _, r := range rs {
 		if r.res == 0 && !ordinaryOnly {
-			ts = append(ts, target{r.pid, r.idx, r.name})
+			ts = append(ts, target{r.pid, r.idx, r.name, r.alias})
 			break
 		}
 	}
@@ -354,6 +478,10 @@ func (e *env) massTargets(i int, from byte, ordinaryOnly bool) []target {
 
 func runMass(e *env, id string, o massOpt) {
 	if !want(id) {
+		return
+	}
+	if e.broken && o.pre == nil {
+		e.skipped++
 		return
 	}
 	rng := hk.Rng("c13", id)
@@ -378,9 +506,32 @@ func runMass(e *env, id string, o massOpt) {
 	}
 	var wg sync.WaitGroup
 	seed := rng.Int63()
-	mk := func(ts []target) *streamCmd {
-		return &streamCmd{Run: rn, Targets: ts, N: o.n, SleepProb: 0.01, SleepMaxUS: 300, PadProb: 0.1, PadMax: 3000,
+	mk := func(ts []target, idx uint32) *streamCmd {
+		c := &streamCmd{Run: rn, Targets: ts, N: o.n, SleepProb: 0.01, SleepMaxUS: 300, PadProb: 0.1, PadMax: 3000,
 			GapEvery: o.gapEvery, GapUS: o.gapUS, Seed: seed, Done: &wg}
+		if o.scripted {
+			// seeded script per sender: one addressing mode (pid / name / alias), mostly Sends with a few Calls and
+			// important Sends, payload sizes from the small/large motifs; every other sender writes target by target
+			srng := rand.New(rand.NewSource(seed ^ int64(idx)*7919))
+			addr := []uint8{aPID, aPID, aPID, aName, aAlias}[idx%5]
+			pads := sizeMotifs(srng, o.n, 0.01)
+			c.Script = make([]step, o.n)
+			for i := range c.Script {
+				st := step{Kind: kSend, Addr: addr, Pad: pads[i]}
+				switch x := srng.Intn(100); {
+				case x < 7:
+					st.Kind = kCall
+				case x < 10:
+					st.Kind = kImportant
+				}
+				if srng.Intn(100) == 0 {
+					st.SleepUS = uint32(1 + srng.Intn(300))
+				}
+				c.Script[i] = st
+			}
+			c.TargetMajor = idx%2 == 1
+		}
+		return c
 	}
 	started := 0
 	if incon == "" {
@@ -389,7 +540,7 @@ func runMass(e *env, id string, o massOpt) {
 				continue
 			}
 			wg.Add(1)
-			if err := e.A.Send(s.pid, mk(e.massTargets(i, 'A', o.ordinaryOnly))); err != nil {
+			if err := e.A.Send(s.pid, mk(e.massTargets(i, 'A', o.ordinaryOnly), s.idx)); err != nil {
 				wg.Done()
 				continue
 			}
@@ -401,7 +552,7 @@ func runMass(e *env, id string, o massOpt) {
 					continue
 				}
 				wg.Add(1)
-				if err := e.B.Send(s.pid, mk(e.massTargets(i, 'B', o.ordinaryOnly))); err != nil {
+				if err := e.B.Send(s.pid, mk(e.massTargets(i, 'B', o.ordinaryOnly), s.idx)); err != nil {
 					wg.Done()
 					continue
 				}
@@ -425,6 +576,9 @@ func runMass(e *env, id string, o massOpt) {
 		full = 300 * time.Millisecond
 	}
 	complete, idle, missing := settle(rn, full)
+	if o.pre == nil {
+		defer e.noteDelivery(complete)
+	}
 	hk.StressOff()
 	slowLink.Store(nil)
 	if o.post != nil {
@@ -517,7 +671,7 @@ func runMass(e *env, id string, o massOpt) {
 func sendBurst(e *env, rn *run, s *sender, r *receiver, base uint32, n int) string {
 	var wg sync.WaitGroup
 	wg.Add(1)
-	cmd := &streamCmd{Run: rn, Targets: []target{{r.pid, r.idx, r.name}}, Base: base, N: n, Done: &wg}
+	cmd := &streamCmd{Run: rn, Targets: []target{{r.pid, r.idx, r.name, r.alias}}, Base: base, N: n, Done: &wg}
 	if err := e.node(s.side).Send(s.pid, cmd); err != nil {
 		return "harness: command to sender failed: " + err.Error()
 	}
@@ -660,7 +814,16 @@ func runPool(k int) {
 		hk.Emit(hk.Case{ID: "setup/" + prefix, Scenario: "setup", Verdict: hk.Inconclusive, What: "harness: " + err.Error()})
 		return
 	}
-	defer func() { t := time.Now(); e.stop(); phase("stop", t) }()
+	defer func() {
+		if e.skipped > 0 {
+			hk.Emit(hk.Case{ID: "skipped/" + prefix, Scenario: "setup", Verdict: hk.Inconclusive,
+				What:   fmt.Sprintf("the connection kept losing messages on a stable pool (re-dialled %d times): %d stable-pool cases of pool size %d skipped", e.heals, e.skipped, k),
+				Detail: map[string]any{"reconnects": e.heals, "skipped": e.skipped}})
+		}
+		t := time.Now()
+		e.stop()
+		phase("stop", t)
+	}()
 	if err := e.connect(true); err != nil {
 		hk.Emit(hk.Case{ID: "setup/" + prefix, Scenario: "setup", Verdict: hk.Inconclusive, What: "harness: " + err.Error()})
 		return
@@ -677,7 +840,7 @@ func runPool(k int) {
 	phase("setup", tp)
 	tp = time.Now()
 	// pair: every sender residue against an ordinary receiver, every receiver residue against an ordinary sender
-	popt := pairOpt{n: 16, stallUS: 300, gate: true}
+	popt := pairOpt{scen: "pair", gate: true, script: func(rng *rand.Rand) []step { return sizesScript(rng, 16, aPID, 300) }}
 	for res := 0; res < 255; res++ {
 		ss := sres[res]
 		if len(ss) == 0 {
@@ -706,8 +869,8 @@ func runPool(k int) {
 	// the reverse direction (the accepting node sends): every residue in the thorough tier, every fifth in the quick tier
 	sresB := sendersByRes(e.sB)
 	rresA := receiversByRes(e.rA)
-	step := hk.Pick(5, 1)
-	for res := 0; res < 255; res += step {
+	stride := hk.Pick(5, 1)
+	for res := 0; res < 255; res += stride {
 		if ss := sresB[res]; len(ss) > 0 {
 			r := e.rA[(res*7+3)%len(e.rA)]
 			if r.res == 0 {
@@ -726,7 +889,7 @@ func runPool(k int) {
 	if hk.Thorough() {
 		// second sender of every residue (ids 255 apart: same residue mod 255, other residue mod 256), longer bursts
 		topt := popt
-		topt.n = 48
+		topt.script = func(rng *rand.Rand) []step { return sizesScript(rng, 48, aPID, 300) }
 		for res := 0; res < 255; res++ {
 			if ss := sres[res]; len(ss) > 1 {
 				r := e.rB[(res*17+9)%len(e.rB)]
@@ -735,8 +898,7 @@ func runPool(k int) {
 		}
 	}
 	// the same sweep over the sender residues with the receiver addressed by name
-	nopt := popt
-	nopt.byName = true
+	nopt := pairOpt{scen: "pair-by-name", gate: true, script: func(rng *rand.Rand) []step { return sizesScript(rng, 16, aName, 300) }}
 	for res := 0; res < 255; res++ {
 		ss := sres[res]
 		if len(ss) == 0 {
@@ -744,12 +906,34 @@ func runPool(k int) {
 		}
 		runPair(e, fmt.Sprintf("pair-by-name/%s/s%d", prefix, res), ss[len(ss)-1], e.rB[(res*13+1)%len(e.rB)], 'B', nopt)
 	}
+	// mixed operations of one pair (Send, Call, SendImportant, SendExit last) with one addressing mode per stream:
+	// every sender residue (addressing pid / name / alias in turn), every receiver residue (by pid)
+	ops := func(addr uint8, exit bool) pairOpt {
+		return pairOpt{scen: "pair-ops", gate: true, script: func(rng *rand.Rand) []step { return opsScript(rng, 14, addr, 300, exit) }}
+	}
+	for res := 0; res < 255; res++ {
+		if ss := sres[res]; len(ss) > 0 {
+			r := e.rB[(res*19+2)%len(e.rB)]
+			runPair(e, fmt.Sprintf("pair-ops/%s/s%d", prefix, res), ss[0], r, 'B', ops(uint8(res%3), res%2 == 0))
+		}
+		if rs := rres[res]; len(rs) > 0 {
+			s := e.sA[(res*23+7)%len(e.sA)]
+			runPair(e, fmt.Sprintf("pair-ops/%s/r%d", prefix, res), s, rs[0], 'B', ops(aPID, res%2 == 1))
+		}
+	}
+	// addressing mode changing from message to message within one pair
+	xopt := pairOpt{scen: "pair-xaddr", gate: true, script: func(rng *rand.Rand) []step { return xaddrScript(rng, 14, 300) }}
+	for i := 0; i < hk.Pick(12, 120); i++ {
+		s := e.sA[(i*41+3)%len(e.sA)]
+		r := e.rB[(i*29+5)%len(e.rB)]
+		runPair(e, fmt.Sprintf("pair-xaddr/%s/%d", prefix, i), s, r, 'B', xopt)
+	}
 
 	phase("pair", tp)
 	tp = time.Now()
 	// mass, stable pool
-	for i := 0; i < hk.Pick(5, 60); i++ {
-		runMass(e, fmt.Sprintf("mass/%s/%d", prefix, i), massOpt{scenario: "mass", n: hk.Pick(24, 60), stress: true, slow: i%2 == 0, reverse: i%3 == 2})
+	for i := 0; i < hk.Pick(5, 40); i++ {
+		runMass(e, fmt.Sprintf("mass/%s/%d", prefix, i), massOpt{scenario: "mass", n: hk.Pick(24, 60), stress: true, slow: i%2 == 0, reverse: i%3 == 2, scripted: i%2 == 1})
 	}
 	phase("mass", tp)
 	tp = time.Now()
@@ -782,7 +966,7 @@ func runPool(k int) {
 	phase("grow-gated", tp)
 	tp = time.Now()
 	// grow, free running: streams start right after the first link is up
-	for i := 0; i < hk.Pick(3, 60); i++ {
+	for i := 0; i < hk.Pick(3, 40); i++ {
 		id := fmt.Sprintf("grow/%s/%d", prefix, i)
 		rng := hk.Rng("c13", id, "pre")
 		// every third run is left alone: no injected delay anywhere, the natural schedule only
@@ -813,7 +997,7 @@ func runPool(k int) {
 	tp = time.Now()
 	defer func() { phase("drop", tp) }()
 	// drop: single links are closed in the middle of the streams
-	for i := 0; i < hk.Pick(3, 60); i++ {
+	for i := 0; i < hk.Pick(3, 40); i++ {
 		id := fmt.Sprintf("drop/%s/%d", prefix, i)
 		rng := hk.Rng("c13", id, "pre")
 		runMass(e, id, massOpt{scenario: "drop", n: hk.Pick(24, 48), stress: true, slow: true, reverse: true, lossy: true, ordinaryOnly: true, gapEvery: 3, gapUS: 100 + rng.Intn(400),
@@ -859,7 +1043,7 @@ func runPool(k int) {
 
 func main() {
 	hk.InstallHook()
-	hk.Rule("pairs (sender process, receiver process) on two nodes joined by a pool of k in {1,2,3,5} TCP links; senders and receivers cover every residue of the process id mod 255 and mod 256 (link / receive-queue selector), every fifth sender compresses large messages. pair: one isolated pair per case (every sender residue, every receiver residue, both directions; pair-by-name: receiver addressed by registered name), burst from inside one callback, first message stalls its decode worker, one link parked by a gate; mass: all senders at once under seeded delays at recv.* hooks, a slowed link, random decode stalls and sizes, one case per class of pairs (ordinary, sender id%255==0, receiver id%255==0); grow-gated: pool held at one link by a gate for the first burst, grown to k for the second; grow: streams started while the dialler still adds links (every third run without any injected delay); drop: links closed mid-stream, both directions. Non-trivial iff measured: the frames of the pair were spread over >=2 links or >=2 receive queues (recv.frame / recv.push counters, exact for isolated pairs), or two consecutive messages of a pair were in flight together (logical send/receive clocks) while its decode worker was stalled, links were delayed, or the pool changed. Distinct = scenario x pool size x class of pair x observed spread x injected delays.")
+	hk.Rule("pairs (sender process, receiver process) on two nodes joined by a pool of k in {1,2,3,5} TCP links; senders and receivers cover every residue of the process id mod 255 and mod 256 (link / receive-queue selector), every fifth sender compresses large messages. Every stream is a seeded script per pair: payload sizes from motifs (small directly followed by > 4 KiB or 64 KiB, large-small, small-small-large, ...), first message stalls its decode worker. pair / pair-by-name: one isolated pair per case (every sender residue, every receiver residue, both directions; by pid or by registered name), one link parked by a gate; pair-ops: Send, Call (issued from the sender's callback, waits for the reply), SendImportant and a final SendExit mixed in one stream with ONE addressing mode (pid / name / alias), every sender and every receiver residue - the receiver must see one increasing sequence across HandleMessage and HandleCall, and the exit signal may not reach the mailbox before earlier messages; pair-xaddr: the addressing mode changes from message to message; mass: all senders at once under seeded delays at recv.* hooks, a slowed link, random decode stalls, every second run with per-sender scripts (sizes, Calls, important Sends, pid/name/alias per sender, target-major order), one case per class of pairs; grow-gated: pool held at one link by a gate for the first burst, grown to k for the second; grow: streams started while the dialler still adds links (every third run without any injected delay); drop: links closed mid-stream, both directions. Non-trivial iff measured: the frames of the pair were spread over >=2 links or >=2 receive queues (recv.frame / recv.push counters, exact for isolated pairs), or two consecutive messages of a pair were in flight together (logical send/receive clocks) while its decode worker was stalled, links were delayed, or the pool changed. Distinct = scenario x pool size x class of pair x observed spread x operations x addressing modes x small-then-large x injected delays.")
 	hk.Assume("both nodes run in one OS process and talk over loopback TCP; link delays are injected at the receive hooks (after a frame has been read), not in the kernel")
 	hk.Assume("a message that is never delivered is not an order violation (delivery integrity is C12): the oracle is 'sequence numbers of a pair never decrease at the receiver'")
 	if err := edf.RegisterTypeOf(M{}); err != nil {
@@ -869,6 +1053,9 @@ func main() {
 	installObservers()
 	t0 := time.Now()
 	for _, k := range []int{1, 2, 3, 5} {
+		if d := os.Getenv("C13_K"); d != "" && d != fmt.Sprint(k) {
+			continue // development aid: one pool size only
+		}
 		runPool(k)
 	}
 	h, d := hk.PointStats()
